@@ -19,9 +19,9 @@ def run(tier):
     n = {"quick": 30000, "thorough": 600000}[tier]
     vf.run_harness(binpath, ["pipe", "gen", "--seed", vf.seed(), "--tier", tier, "--n", n, "safe"], stdout_path=cases)
     vf.exec_and_validate(chk, binpath, "pipe", "TV_Safe", cases, jvms=12, what="render call")
-    if tier == "thorough":
-        plain = vf.build_harness("plain")
-        vf.exec_and_validate(chk, plain, "pipe", "TV_Safe", cases, jvms=12, what="render call (plain release build)")
+    # also in a plain release build (no debug assertions, wrapping arithmetic): what a user ships
+    plain = vf.build_harness("plain")
+    vf.exec_and_validate(chk, plain, "pipe", "TV_Safe", cases, jvms=12, what="render call (plain release build)")
     chk.cov["distinct_nontrivial"] = chk.cov["traces_validated_against_impl"]
     chk.cov["rule"] = ("seeded view-space triangle soups over the statement's domain (near 1e-3..10, far/near 2..1000, "
                        "|coordinate| <= 1000 near; vertices exactly on near/far/side planes, on the eye plane, behind the "
